@@ -478,6 +478,16 @@ func checkC03(c *Ctx) {
 		c.Fatalf("FieldUnion.tla did not emit its tables")
 	}
 	x := &fuCtx{c: c, rng: rand.New(rand.NewSource(c.Seed)), covered: map[string]bool{}}
+	for i, r := range rows.AnyTable {
+		if i%17 == 0 {
+			c.Sample(map[string]interface{}{"table": "Any", "implements": r.Ifaces, "concrete": r.Concrete, "documented_constructor": r.Ctor})
+		}
+	}
+	for i, r := range rows.Ints {
+		if i%6 == 0 {
+			c.Sample(map[string]interface{}{"table": "slot", "constructor": r.Ctor, "encoder_method": r.Method})
+		}
+	}
 	nr := c.Pick(200, 10000)
 	rng := x.rng
 	ri64 := func() []int64 {
